@@ -822,7 +822,24 @@ func (e *Exec) expectedSeq(ts *treeState, s *Step) []entry {
 func (e *Exec) doSeq(i int, s *Step, ts *treeState) *Violation {
 	api := ts.api
 	seq := api.Seq(s.Op, s.K, s.K2, kOf(s.N))
-	full := collectSeq(seq)
+	var full []pair
+	if e.or&oVal != 0 && s.N > 0 {
+		// C18: the consumer forces a collection (and reuses the freed memory) in the
+		// middle of the iteration, while the sequence holds its traversal state
+		at := s.N
+		seq(func(k []byte, id uint64, vok bool) bool {
+			full = append(full, pair{k, id, vok})
+			if len(full) == at {
+				runtime.GC()
+				runtime.GC()
+				e.envChurn()
+				e.st.Events["gc2_inside_iteration"]++
+			}
+			return true
+		})
+	} else {
+		full = collectSeq(seq)
+	}
 	e.note(uint64(i))
 	e.notePairs(full)
 	own := opOracle(s.Op)
